@@ -284,6 +284,11 @@ def assemble(
 
     except FlipJumpException as fj_exception:
         raise fj_exception
+    except RecursionError as recursion_error:
+        raise FlipJumpAssemblerException(
+            "The expressions / macros are nested too deep for the python recursion limit "
+            f"(try a bigger max_recursion_depth than {max_recursion_depth}, or split the long expression)."
+        ) from recursion_error
     except Exception as unknown_exception:
         raise FlipJumpAssemblerException(
             "Unknown exception during assembling the .fj files, please report this bug"
